@@ -67,6 +67,8 @@ pub struct GenCfg {
     /// percent chances of a `#[repr]` attribute and of explicit discriminants (where `reprs` / `discriminants` are on)
     pub repr_pct: u32,
     pub disc_pct: u32,
+    /// an Into target that mentions a type parameter (`Into(Option<T>)`)
+    pub generic_into: bool,
 }
 
 impl GenCfg {
@@ -115,6 +117,7 @@ impl GenCfg {
             extra_generics: true,
             repr_pct: 30,
             disc_pct: 30,
+            generic_into: true,
         }
     }
     /// concrete (non-generic) types with plain attributes: the base for behavioural checks
@@ -242,7 +245,7 @@ pub fn build(d: &mut Dna, cfg: &GenCfg) -> Built {
 
     // ---------------------------------------------------------------- generics
     let mut gens = Generics::default();
-    let base: Vec<FTy> = base_types().into_iter().filter(|b| !with_copy || b.has(caps::COPY)).filter(|b| !cfg.plain_types_only || !b.src.chars().any(|c| c.is_uppercase())).collect();
+    let base: Vec<FTy> = base_types().into_iter().filter(|b| !(with_copy || kind == Kind::Union) || b.has(caps::COPY)).filter(|b| !cfg.plain_types_only || !b.src.chars().any(|c| c.is_uppercase())).collect();
     let mut lt_names = pool_or(&cfg.lifetime_names, &["a", "b"]);
     let mut ty_names = pool_or(&cfg.typaram_names, &TYPARAM_NAMES);
     let const_names = pool_or(&cfg.const_names, &["N", "M"]);
@@ -324,6 +327,15 @@ pub fn build(d: &mut Dna, cfg: &GenCfg) -> Built {
             classes.push("into_multi_target");
         }
     }
+    // a target written in terms of a type parameter: `Into(Option<T>)`; always the last target
+    let mut generic_target: Option<(String, String)> = None;
+    if has(Tr::Into) && cfg.generic_into && !gens.types.is_empty() && !want_unsized && d.chance(25) {
+        let p = gens.types[0].name.clone();
+        let t = format!("Option<{p}>");
+        into_targets.push(t.clone());
+        generic_target = Some((t, p));
+        classes.push("into_generic_target");
+    }
     let type_level_default_expr =
         has(Tr::Default) && cfg.type_expr && gens.types.is_empty() && gens.consts.is_empty() && kind != Kind::Union && d.chance(12);
     // a type-level expression must be parseable by syn without its "full" feature (what the shipping
@@ -387,6 +399,21 @@ pub fn build(d: &mut Dna, cfg: &GenCfg) -> Built {
         let deref_mut_pos = if nfields > 0 && d.chance(30) { d.pick(nfields) } else { deref_pos };
         // Into: per target pick a field position and a mode
         let into_pos: Vec<usize> = into_targets.iter().map(|_| if nfields > 0 { d.pick(nfields) } else { 0 }).collect();
+        // how this variant serves the generic target: its field is `Option<P>` (returned as it is), `P` (converted), or a
+        // concrete type that converts at the instantiation while another field mentions `P`
+        let mut gt_mode = 0usize;
+        let mut phantom_pos: Option<usize> = None;
+        if generic_target.is_some() {
+            gt_mode = d.weighted(&[30, 35, 35]);
+            if gt_mode == 2 {
+                let free: Vec<usize> = (0..nfields).filter(|k| !into_pos.contains(k) && !(has(Tr::Deref) && (*k == deref_pos || *k == deref_mut_pos))).collect();
+                if free.is_empty() {
+                    gt_mode = 1;
+                } else {
+                    phantom_pos = Some(*d.choose(&free));
+                }
+            }
+        }
         let is_default_variant = has(Tr::Default) && vi == default_variant && !type_level_default_expr;
         let union_default_pos = if kind == Kind::Union && nfields > 0 { d.pick(nfields) } else { 0 };
 
@@ -424,9 +451,27 @@ pub fn build(d: &mut Dna, cfg: &GenCfg) -> Built {
                 }
                 forced_ty = Some(t);
             }
+            if let (Some((_, p)), true) = (&generic_target, forced_ty.is_none() && Some(fi) == phantom_pos) {
+                if let Some(b) = base.iter().find(|b| b.inst == gens.types[0].inst) {
+                    forced_ty = wrap(Wrapk::Phantom, &param_ty(p, b), None);
+                }
+            }
             if has(Tr::Into) {
                 for (ti, tgt) in into_targets.iter().enumerate() {
                     if into_pos[ti] == fi && forced_ty.is_none() {
+                        if let Some((gt, p)) = &generic_target {
+                            if gt == tgt {
+                                if let Some(b) = base.iter().find(|b| b.inst == gens.types[0].inst) {
+                                    let pt = param_ty(p, b);
+                                    forced_ty = match gt_mode {
+                                        0 => wrap(Wrapk::Option, &pt, None),
+                                        1 => Some(pt),
+                                        _ => Some(b.clone()),
+                                    };
+                                }
+                                continue;
+                            }
+                        }
                         // choose a source type for this target: identical, convertible, or anything + method
                         let mode = d.weighted(&[45, 30, 25]);
                         let src_candidates: Vec<&FTy> = base.iter().filter(|b| converts(&b.inst, tgt)).collect();
@@ -663,6 +708,16 @@ pub fn build(d: &mut Dna, cfg: &GenCfg) -> Built {
                         }
                     }
                 }
+                // one field over two parameters
+                if gens.types.len() >= 2 && !want_unsized {
+                    let (p0, p1) = (&gens.types[0], &gens.types[1]);
+                    if let (Some(b0), Some(b1)) = (base.iter().find(|b| b.inst == p0.inst), base.iter().find(|b| b.inst == p1.inst)) {
+                        let t = tup2(&param_ty(&p0.name, b0), &param_ty(&p1.name, b1));
+                        if t.caps & need == need && (!want_key || t.has(caps::KEY)) {
+                            gen_cands.push(t);
+                        }
+                    }
+                }
                 for (lt, _) in &gens.lifetimes {
                     let t = lt_str(lt);
                     if t.caps & need == need {
@@ -696,8 +751,11 @@ pub fn build(d: &mut Dna, cfg: &GenCfg) -> Built {
                     cands.retain(|c| c.has(caps::COPY));
                     gen_cands.retain(|c| c.has(caps::COPY) && !c.src.contains("Phantom"));
                 }
+                let decoy = cands.iter().position(|c| c.src == "Decoy");
                 if !gen_cands.is_empty() && d.chance(55) {
                     d.choose(&gen_cands).clone()
+                } else if decoy.is_some() && d.chance(7) {
+                    cands[decoy.unwrap()].clone()
                 } else if cands.is_empty() {
                     base[0].clone()
                 } else {
@@ -804,9 +862,18 @@ pub fn build(d: &mut Dna, cfg: &GenCfg) -> Built {
             for (ti, tgt) in into_targets.iter().enumerate() {
                 let fi = into_pos[ti];
                 let fty = fields[fi].ty.inst.clone();
-                let needs_method = fty != *tgt && !converts(&fty, tgt);
-                let same_typed = fields.iter().filter(|f| f.ty.inst == *tgt).count();
-                let unique_same = fty == *tgt && same_typed == 1;
+                let is_generic = generic_target.as_ref().map(|(g, _)| g == tgt).unwrap_or(false);
+                let (needs_method, same_typed, identical) = if is_generic {
+                    let p = &generic_target.as_ref().unwrap().1;
+                    let fsrc = fields[fi].ty.src.clone();
+                    let identical = fsrc == *tgt;
+                    // `P: Into<Option<P>>` always holds; a concrete field converts at the instantiation when it is P's
+                    let convertible = fsrc == *p || (fields[fi].ty.params.is_empty() && fty == gens.types[0].inst && phantom_pos.is_some());
+                    (!(identical || convertible), fields.iter().filter(|f| f.ty.src == *tgt).count(), identical)
+                } else {
+                    (fty != *tgt && !converts(&fty, tgt), fields.iter().filter(|f| f.ty.inst == *tgt).count(), fty == *tgt)
+                };
+                let unique_same = identical && same_typed == 1;
                 let must_mark = multi && !unique_same;
                 let use_method = needs_method || (cfg.method && d.chance(15));
                 if must_mark || use_method || d.chance(15) {
@@ -830,6 +897,19 @@ pub fn build(d: &mut Dna, cfg: &GenCfg) -> Built {
             }
         }
         variants.push(VariantSpec { name: vname, shape, fields, disc: None, attrs: vattrs, split: d.byte(), raw: vec![], noise: vec![], disc_sp: 0 });
+    }
+
+    // a generic Into target whose parameter ended up in no field cannot be written (the parameter would be unused)
+    if let Some((gt, p)) = &generic_target {
+        if !used_ty.contains(p) {
+            into_targets.retain(|t| t != gt);
+            for v in variants.iter_mut() {
+                for f in v.fields.iter_mut() {
+                    f.attrs.retain(|a| !(a.tr == Tr::Into && a.into_ty.as_deref() == Some(gt.as_str())));
+                }
+            }
+            classes.retain(|c| *c != "into_generic_target");
+        }
     }
 
     // ---------------------------------------------------------------- Debug naming (type, variant, field)
@@ -1051,7 +1131,8 @@ pub fn build(d: &mut Dna, cfg: &GenCfg) -> Built {
             Tr::Into => {
                 for tgt in &into_targets {
                     let mut ps = vec![];
-                    if cfg.bounds && d.chance(cfg.attr_pct / 2) {
+                    let is_generic = generic_target.as_ref().map(|(g, _)| g == tgt).unwrap_or(false);
+                    if cfg.bounds && !is_generic && d.chance(cfg.attr_pct / 2) {
                         if let Some(b) = pick_bound(d, &gens, || custom_bound(Tr::Into, &gens, Some(tgt)), false) {
                             ps.push((TParam::Bound(b), d.byte()));
                             classes.push("bound_explicit");
@@ -1236,7 +1317,7 @@ pub fn build(d: &mut Dna, cfg: &GenCfg) -> Built {
                         if m.is_empty() || !m.starts_with("m_") {
                             continue;
                         }
-                        let single_param = !m.starts_with("m_hash") && !matches!(m.as_str(), "m_clone_u8" | "m_clone_i16" | "m_clone_string" | "m_clone_tracked");
+                        let single_param = !m.starts_with("m_hash") && !matches!(m.as_str(), "m_clone_u8" | "m_clone_i16" | "m_clone_string" | "m_clone_tracked" | "m_into_none");
                         match d.weighted(&[70, 15, 15]) {
                             1 => *m = format!("crate::prelude::{m}"),
                             2 if concrete && single_param && !cfg.plain_types_only => *m = format!("{m}::<{}>", f.ty.src),
@@ -1317,6 +1398,15 @@ pub fn build(d: &mut Dna, cfg: &GenCfg) -> Built {
             classes.push("discriminant_literal_spelling");
         }
     }
+    // raw identifiers as variant names (field names are drawn from the pool above)
+    if cfg.raw_idents && cfg.variant_names.is_none() && spec.kind == Kind::Enum && !spec.variants.is_empty() && !type_level_default_expr && d.chance(8) {
+        let i = d.pick(spec.variants.len());
+        let raw = *d.choose(&["r#loop", "r#enum", "r#move"]);
+        if !spec.variants.iter().any(|v| v.name == raw) {
+            spec.variants[i].name = raw.to_string();
+            classes.push("raw_identifier");
+        }
+    }
     if cfg.extra_generics && !spec.gens.is_empty() && nvariants_nonzero(&spec) {
         let mut extra: Vec<String> = Vec::new();
         let sized = "::core::marker::Sized";
@@ -1362,6 +1452,9 @@ pub fn build(d: &mut Dna, cfg: &GenCfg) -> Built {
     }
     if spec.variants.iter().any(|v| v.fields.iter().any(|f| f.name.as_deref().map(|n| n.starts_with("r#")).unwrap_or(false))) {
         classes.push("raw_identifier");
+    }
+    if spec.all_fields().any(|f| f.ty.src.contains("Decoy")) {
+        classes.push("decoy_field(inherent methods named like trait methods)");
     }
     classes.push(match kind {
         Kind::Struct => "kind_struct",
